@@ -3,6 +3,7 @@ import OFV.Model.C11
 import OFV.Proofs.GQRing
 import OFV.Proofs.C11Left
 import OFV.Proofs.C11Prod
+import OFV.Proofs.C11RowUnit
 
 namespace OFV
 namespace Model
@@ -72,6 +73,60 @@ theorem identity_prod (Q : Mat) (m n : Nat) : IsProd Q (Mat.identity m) Q m n :=
   simp only [ite_mul, one_mul, zero_mul]
   rw [sum_ite_eq]
   simp [hi]
+
+/-- the returned `left_unitary` has orthonormal rows: it is the identity transformed by the same unitary row rotations -/
+theorem leftStage_V_orthonormal (tol : Rat) (htol : 0 < tol) (m n : Nat) :
+    ∀ (ps : List (Nat × Nat)) (M V M' V' : Mat),
+      leftStage tol ps M V = .ok (M', V') → LeftExact tol ps M → Rect M m n → Rect V m m →
+      (∀ p ∈ ps, p.1 + 1 < m) → RowsOrthonormal V m m → RowsOrthonormal V' m m := by
+  intro ps
+  induction ps with
+  | nil =>
+    intro M V M' V' h _ _ _ _ ho
+    simp [leftStage] at h
+    obtain ⟨_, h2⟩ := h
+    subst h2
+    exact ho
+  | cons p ps ih =>
+    intro M V M' V' h hex hM hV hval ho
+    obtain ⟨l, k⟩ := p
+    obtain ⟨hs, hT, hF⟩ := hex
+    have hl : l + 1 < m := hval (l, k) List.mem_cons_self
+    have hvalps : ∀ p ∈ ps, p.1 + 1 < m := fun p hp => hval p (List.mem_cons_of_mem _ hp)
+    unfold leftStage at h
+    by_cases hb : big tol (M.get l k) = true
+    · rw [if_pos hb] at h
+      cases hG : givensElems tol (M.get l k) (M.get (l + 1) k) false with
+      | error e => simp [hG, bind, Except.bind] at h
+      | ok G =>
+        simp only [hG, bind, Except.bind] at h
+        have hU := givensElems_unitary tol htol _ _ false G hs.1 hs.2.1 hs.2.2.1 hG
+        exact ih _ _ M' V' h (hT G hb hG) (rotateRows_rect hM G l hl) (rotateRows_rect hV G l hl) hvalps
+          (rotateRows_orthonormal hV hU l hl ho)
+    · have hb' : big tol (M.get l k) = false := by simpa using hb
+      rw [if_neg hb] at h
+      exact ih M V M' V' h (hF hb') hM hV hvalps ho
+
+theorem identity_orthonormal (m : Nat) : RowsOrthonormal (Mat.identity m) m m := by
+  rw [ortho_iff_dot]
+  intro i i' hi hi'
+  refine GQ.ext ?_ ?_
+  · show rsum m _ = _
+    rw [rsum_single i _ m hi (fun x hx hxi => by
+      rw [identity_get m i x hi hx]; simp [Ne.symm hxi])]
+    rw [identity_get m i i hi hi, identity_get m i' i hi' hi]
+    by_cases e : i = i'
+    · subst e; simp
+    · have : ¬ i' = i := fun h => e h.symm
+      simp [e, this]
+  · show rsum m _ = _
+    rw [rsum_single i _ m hi (fun x hx hxi => by
+      rw [identity_get m i x hi hx]; simp [Ne.symm hxi])]
+    rw [identity_get m i i hi hi, identity_get m i' i hi' hi]
+    by_cases e : i = i'
+    · subst e; simp
+    · have : ¬ i' = i := fun h => e h.symm
+      simp [e, this]
 
 end C11
 end Model
